@@ -278,6 +278,10 @@ pub fn judge(it: &mut Interp, c: &Case) -> Verdict {
         // operator. (An assignment to an unbound variable keeps no position of its identifier in
         // the syntax tree; it is judged like the other faults: anywhere in the failing form.)
         ErrKind::Unbound(_) if c.kind == "unbound-set" => in_form || at_offender,
+        // the non-procedure is applied by a library procedure of the bundled base.sld: the user's
+        // text has no operator position for it, so only "inside the failing form" can be demanded
+        // (and never a position of base.sld itself)
+        _ if c.kind.ends_with("-in-library") => in_form,
         ErrKind::Unbound(_) | ErrKind::NotProcedure => at_offender,
         _ => in_form,
     };
